@@ -316,9 +316,11 @@ def check_pair(ck, r):
         for op in ("union", "intersection", "diff", "symmetric_diff"):
             ck.expect(f"{op}({A}, {B})", {"t": "set", "v": r[op]}, "set-algebra")
     A, B = lits(la), lits(lb)
+    ck.expect(f"zip({A}, {B})", {"t": "seqseq", "v": r["zip"]}, "textbook")
+    if lb:
+        return          # the functions of one list: once per list (with the record whose second list is empty)
     ck.expect(f"unique({A})", {"t": "seq", "v": r["unique"]}, "unique")
     ck.expect(f"reverse({A})", {"t": "seq", "v": r["reverse"]}, "textbook")
-    ck.expect(f"zip({A}, {B})", {"t": "seqseq", "v": r["zip"]}, "textbook")
     ck.expect(f"enumerate({A})", {"t": "enum", "v": r["enumerate"]}, "textbook")
     ck.expect(f"pairs({A})", {"t": "seqseq", "v": r["pairs"]}, "textbook")
     ck.expect(f"grouped({A})", {"t": "seqseq", "v": r["grouped"]}, "textbook")
